@@ -253,3 +253,80 @@ Proof.
                end) l None = None) by (induction l; [reflexivity|assumption]).
       rewrite Hn. exact I.
 Qed.
+
+(* ---------- progress: a data call that succeeds consumes at least one byte ---------- *)
+Lemma enc_loop_rest_le v : forall n src fin open code left, length src <= n ->
+  let '(_, _, _, _, rest) := enc_loop v fin open code left src in length rest <= length src.
+Proof.
+  induction n as [|n IH]; intros src fin open code left Hn.
+  { destruct src; [cbn; lia|cbn in Hn; lia]. }
+  destruct src as [|b rest]; [cbn; lia|]. cbn [length] in Hn. cbn [enc_loop].
+  destruct (bz b).
+  - destruct rest as [|b2 rest2]; [cbn; lia|]. cbn [length] in *.
+    destruct (zpe v && (1 <? code) && (code <? 32) && bz b2).
+    + destruct (left - 1 =? 0); [cbn [length]; lia|].
+      specialize (IH rest2 (fin ++ nb (code + maxlen v) :: open) [] 1 (left - 1) ltac:(lia)).
+      destruct (enc_loop v (fin ++ nb (code + maxlen v) :: open) [] 1 (left - 1) rest2) as [[[[f o] c] l] r]. lia.
+    + destruct (left - 1 =? 0); [cbn [length]; lia|].
+      specialize (IH (b2 :: rest2) (fin ++ nb code :: open) [] 1 (left - 1) ltac:(cbn [length]; lia)).
+      destruct (enc_loop v (fin ++ nb code :: open) [] 1 (left - 1) (b2 :: rest2)) as [[[[f o] c] l] r]. cbn [length] in IH. lia.
+  - destruct (S code =? maxlen v).
+    + destruct (left - 1 =? 0); [cbn [length]; lia|].
+      destruct (left - 2 =? 0); [cbn [length]; lia|].
+      specialize (IH rest (fin ++ nb (S code) :: open ++ [b]) [] 1 (left - 2) ltac:(lia)).
+      destruct (enc_loop v (fin ++ nb (S code) :: open ++ [b]) [] 1 (left - 2) rest) as [[[[f o] c] l] r]. cbn [length]. lia.
+    + destruct (left - 1 =? 0); [cbn [length]; lia|].
+      specialize (IH rest fin (open ++ [b]) (S code) (left - 1) ltac:(lia)).
+      destruct (enc_loop v fin (open ++ [b]) (S code) (left - 1) rest) as [[[[f o] c] l] r]. cbn [length]. lia.
+Qed.
+
+Lemma enc_loop_progress v b rest fin open code left :
+  1 <= left -> ~ (S code = maxlen v /\ left = 1) ->
+  let '(_, _, _, _, r) := enc_loop v fin open code left (b :: rest) in length r <= length rest.
+Proof.
+  intros Hl Hno. cbn [enc_loop]. destruct (bz b).
+  - destruct rest as [|b2 rest2]; [cbn; lia|]. cbn [length].
+    destruct (zpe v && (1 <? code) && (code <? 32) && bz b2).
+    + destruct (left - 1 =? 0); [cbn [length]; lia|].
+      pose proof (enc_loop_rest_le v (length rest2) rest2 (fin ++ nb (code + maxlen v) :: open) [] 1 (left - 1) ltac:(lia)) as H.
+      destruct (enc_loop v (fin ++ nb (code + maxlen v) :: open) [] 1 (left - 1) rest2) as [[[[f o] c] l] r]. lia.
+    + destruct (left - 1 =? 0); [cbn [length]; lia|].
+      pose proof (enc_loop_rest_le v (S (length rest2)) (b2 :: rest2) (fin ++ nb code :: open) [] 1 (left - 1) ltac:(cbn [length]; lia)) as H.
+      destruct (enc_loop v (fin ++ nb code :: open) [] 1 (left - 1) (b2 :: rest2)) as [[[[f o] c] l] r]. cbn [length] in H. lia.
+  - destruct (Nat.eqb_spec (S code) (maxlen v)) as [E|E].
+    + destruct (Nat.eqb_spec (left - 1) 0); [exfalso; apply Hno; split; [assumption|lia]|].
+      destruct (left - 2 =? 0); [cbn [length]; lia|].
+      pose proof (enc_loop_rest_le v (length rest) rest (fin ++ nb (S code) :: open ++ [b]) [] 1 (left - 2) ltac:(lia)) as H.
+      destruct (enc_loop v (fin ++ nb (S code) :: open ++ [b]) [] 1 (left - 2) rest) as [[[[f o] c] l] r]. lia.
+    + destruct (left - 1 =? 0); [cbn [length]; lia|].
+      pose proof (enc_loop_rest_le v (length rest) rest fin (open ++ [b]) (S code) (left - 1) ltac:(lia)) as H.
+      destruct (enc_loop v fin (open ++ [b]) (S code) (left - 1) rest) as [[[[f o] c] l] r]. lia.
+Qed.
+
+(* the encoders never report success without consuming anything (mpt_array_push would spin) *)
+Theorem enc_data_progress v st buf cap src : 3 <= maxlen v -> src <> [] ->
+  match enc_call v st buf cap (Some src) with
+  | (EInt k, _, _) => 1 <= k
+  | _ => True
+  end.
+Proof.
+  intros Hm Hne. cbn [enc_call]. unfold enc_regular.
+  destruct ((cap <? edone st) || (cap - edone st <? escr st)); [exact I|].
+  destruct src as [|b rest]; [contradiction|]. cbn [length Nat.eqb].
+  set (left := cap - edone st). set (code := escr st).
+  destruct (negb (code =? 0)) eqn:Ec.
+  - destruct (Nat.eqb_spec (left - code) 0); [exact I|].
+    destruct ((left - code <? 2) && (code =? maxlen v - 1)) eqn:E2; [exact I|].
+    pose proof (enc_loop_progress v b rest (fin_of st buf) (open_of st buf) code (left - code) ltac:(lia)) as HP.
+    assert (Hno : ~ (S code = maxlen v /\ left - code = 1)).
+    { intros [H1 H2]. apply andb_false_iff in E2. destruct E2 as [E2|E2].
+      - apply Nat.ltb_ge in E2. lia.
+      - apply Nat.eqb_neq in E2. lia. }
+    specialize (HP Hno).
+    destruct (enc_loop v (fin_of st buf) (open_of st buf) code (left - code) (b :: rest)) as [[[[f o] c] l] r].
+    cbn [length]. lia.
+  - destruct (Nat.leb_spec left 1); [exact I|].
+    pose proof (enc_loop_progress v b rest (fin_of st buf) [] 1 (left - 1) ltac:(lia) ltac:(lia)) as HP.
+    destruct (enc_loop v (fin_of st buf) [] 1 (left - 1) (b :: rest)) as [[[[f o] c] l] r].
+    cbn [length]. lia.
+Qed.
